@@ -2,7 +2,7 @@
 From Coq Require Import NArith ZArith List Bool String Lia.
 From Verif.lib Require Import Term.
 From Verif.model Require Import GenVal GenValCheck.
-From Verif.proofs Require Import GenValProofs GenValTheorems GenValSupply.
+From Verif.proofs Require Import GenValProofs GenValTheorems GenValSupply GenValPayset.
 Import ListNotations.
 Open Scope N_scope.
 
@@ -39,9 +39,10 @@ Theorem spec_ok_sound : forall o, spec_ok o = true ->
   (forall e, In e (o_errs o) -> e = 0) /\
   (forall x y, In x (o_digests o) -> In y (o_digests o) -> x = y) /\
   (forall x y, In x (o_red o) -> In y (o_red o) -> x = y) /\
-  (forall m, In m (o_muts o) -> fst m = true -> snd m = true).
+  (forall m, In m (o_muts o) -> fst m = true -> snd m = true) /\
+  hdr_of_payset_ok (o_ps o) = true.
 Proof.
-  intros o H. unfold spec_ok in H. repeat (apply andb_true_iff in H as [H ?]).
+  intros o H. unfold spec_ok in H. apply andb_true_iff in H as [H HP]. repeat (apply andb_true_iff in H as [H ?]).
   repeat split; try assumption.
   - intros e He. rewrite forallb_forall in H3. specialize (H3 e He). apply N.eqb_eq in H3. symmetry. exact H3.
   - apply all_same_sound; assumption.
@@ -106,3 +107,33 @@ Proof.
   eexists. split; [vm_compute; reflexivity|]. cbv zeta.
   repeat split; try (vm_compute; reflexivity). eexists. vm_compute. reflexivity.
 Qed.
+
+(* what the header-against-payset oracle says, field by field *)
+Lemma hdr_of_payset_ok_sound : forall lt maxb bytes load tc prev ntx counter po feesum fees,
+  hdr_of_payset_ok [lt; maxb; bytes; load; tc; prev; ntx; counter; po; feesum; fees] = true ->
+  (lt <> 0 -> compute_load bytes maxb = Ok load) /\ (lt = 0 -> load = 0) /\
+  counter = (if tc =? 0 then 0 else (prev + ntx) mod W64) /\
+  fees = (if po =? 0 then 0 else feesum mod W64).
+Proof.
+  intros lt maxb bytes load tc prev ntx counter po feesum fees H. cbn [hdr_of_payset_ok] in H.
+  apply andb_true_iff in H as [H H3]. apply andb_true_iff in H as [H1 H2].
+  apply N.eqb_eq in H2, H3. change 18446744073709551616 with W64 in H2, H3.
+  repeat split; try assumption.
+  - intro Hlt. destruct (lt =? 0) eqn:E; [apply N.eqb_eq in E; contradiction|].
+    apply andb_true_iff in H1 as [Hm Hl]. apply N.eqb_eq in Hl. unfold compute_load.
+    destruct (maxb =? 0); [discriminate|]. rewrite Hl. reflexivity.
+  - intro Hlt. subst lt. cbn in H1. apply N.eqb_eq in H1. exact H1.
+Qed.
+
+(* a FULL block: with a node-local cap of 450 bytes the two-member group does not fit
+   (ErrNoSpace), the pool stops there and generates; Load is that of the 400 bytes in the block *)
+Definition ex_ub_full : res ublock := eval_generate_full ex_P 450 ex_L 8 2000000 ex_pool [2; 3].
+
+Lemma ex_full :
+  exists ub d, ex_ub_full = Ok ub /\
+    map (fun g => map (fun s : stib => t_id (fst s)) (g_txns g)) (ub_payset ub) = [[1]; [3]] /\
+    gen_codes (mkEnv ex_P true true 8 450) ex_L (mkEv (put layer0 14 (mkAcct 100000 0)) [] 0) ex_pool
+      = [0; E_OVERSPEND; E_DUP; 0; E_MINBAL; E_NOSPACE] /\
+    h_load (ub_hdr ub) = 76 /\ payset_bytes (ub_payset ub) = 400 /\
+    eval_validate ex_P ex_L (finish_block ex_P ub 2 true) = Ok d.
+Proof. eexists. eexists. split; [vm_compute; reflexivity|]. vm_compute. repeat split; reflexivity. Qed.
